@@ -7,11 +7,21 @@ archive, i.e. loader-provided source) and imported; for every function / lambda 
 module `parser.parse_entity` must return the node the interpreter compiled for that object, as
 found independently in `ast.parse(whole file)` by the unique name in `__code__.co_name`
 (functions) or by the unique integer tag in `__code__.co_consts` (lambdas).
+
+f-strings are generated with the PEP 701 field shapes (nested literals and f-strings re-using the
+enclosing quote, several nesting levels, lambdas, fields spanning lines with comments, nested
+triple-quoted / raw f-strings with backslash-terminated lines).  Lambdas also occur as the wrapper
+and/or the wrapped callable of functools.wraps / update_wrapper calls written in the source, next
+to siblings that have the wrapped callable's signature; in addition a drawn share of the modules
+has its lambda objects decorated after import (`lwrap`: __wrapped__ / update_wrapper / a two-link
+__wrapped__ chain / __signature__) with a callable that has the signature of another lambda of the
+same line.
 """
 import ast
 import collections
 import functools
 import importlib.util
+import inspect
 import io
 import linecache
 import os
@@ -39,12 +49,12 @@ ID = 'C15'
 LEVEL = 'exploration'
 TECHNIQUE = ('property-based layout fuzzing: a constructive Hypothesis grammar renders module texts (indent unit, nesting '
              'context, comments, backslash/bracket continuations, every string kind, decorators, multi-line signatures, lambda '
-             'arrangements) to real files / zip archives that are imported; oracle = structural comparison (ast.dump) of '
+             'arrangements, PEP 701 f-string fields incl. nested f-strings, lambdas wrapping / wrapped by other callables) to real files / zip archives that are imported; lambda objects of a drawn share of modules additionally receive __wrapped__ / __signature__ attributes pointing at the signature of a sibling; oracle = structural comparison (ast.dump) of '
              'parser.parse_entity against the node of an independent ast.parse of the whole file, located through the code '
              'object (unique co_name / unique integer tag in co_consts); own line-level ddmin shrinker')
 RULE = ('one evaluation = one function or lambda object of a generated module handed to parser.parse_entity with the future '
         'features the transpiler would pass. Objects are the real ones created by importing the module (module / class '
-        'attributes, containers, defaults, __wrapped__ chains, functools.wraps wrappers) and, for definitions only reachable by '
+        'attributes, containers, defaults, __wrapped__ chains, functools.wraps wrappers; lambda objects optionally decorated after creation the way a run-time decorator would: functools.update_wrapper / __wrapped__ / __signature__ pointing at a fresh function made from the code of another lambda of the same line) and, for definitions only reachable by '
         'running enclosing code, functions built from the nested code objects of the compiled file. Non-trivial (functions): '
         'the definition uses >= 2 of {backslash continuation, multi-line string, comment, indentation unit other than 4 spaces, '
         'nesting below module level}, measured by tokenising the definition\'s own lines; (lambdas): >= 2 lambda expressions '
@@ -57,6 +67,9 @@ ASSUMPTIONS = [
     'the source string returned next to the tree is checked too: for functions it must parse to the same single definition; for lambdas it must parse (inside parentheses) to the same expression, asserted only when the first and last line of the lambda are ASCII (the parser slices text by UTF-8 byte offsets) and modulo trailing blanks inside multi-line string literals (the parser right-strips each line); its only consumer, origin_info.resolve, tolerates garbage there',
     'functions synthesised from nested code objects (types.FunctionType(code, module globals)) stand for the objects an enclosing call would create: source lookup only depends on __code__, __module__ and the file',
     'shapes of confirmed defects are excluded by construction (coverage.classes excluded:*), their minimal inputs are replayed from replays/C15',
+    'attributes set on a lambda object after its creation (__wrapped__, the names copied by functools.update_wrapper, __signature__) do not change which expression created it: the expected node stays the one owning the tag in __code__.co_consts. The decoration target is always a fresh function built from a sibling lambda\'s code object (no __wrapped__ cycles)',
+    'f-string field shapes follow PEP 701 and are generated on Python >= 3.12 only (older interpreters get the flat fields); names inside fields of code that the import executes are constants',
+    'three suspected-defect shapes found by the widened generator are excluded behind named flags (see EXCL) and counted under excluded:*: __signature__ set on a lambda, a def-made wrapper renamed to <lambda> by functools.wraps(lambda), a backslash continuation between the braces of an f-string field',
 ]
 LEVEL_TEXT = ('Randomised exploration of the layout space; every generated definition is compared structurally with the interpreter\'s '
               'own parse of the file, so any difference on an explored case is a concrete counterexample. No claim beyond the cases counted.')
@@ -66,7 +79,26 @@ LEVEL_NOTE = ('Trusted: ast.parse of the whole file as the reference tree, code-
 
 # F10a-c and F11 were repaired in /repo ("fix:" commits); their shapes are generated again and the
 # replays in replays/C15 run as ordinary regressions.
-EXCL = ()
+# no_lambda___signature___attribute: a lambda object whose __signature__ attribute was set to the
+#   signature of another lambda on its line is recovered as that other lambda (inspect.getfullargspec,
+#   used by parser._node_matches_argspec, honours __signature__); suspected defect, reported, the
+#   harness-level decoration mode 'signature' is redirected to 'attr' while the flag is active.
+# no_def_renamed_lambda_by_wraps: a def-made wrapper whose __name__ became '<lambda>' because
+#   functools.wraps/update_wrapper copied it from the lambda it wraps is treated as a lambda by
+#   inspect_utils.islambda (explicit error, or - with a lambda on the wrapper's first line - that lambda
+#   is returned as the wrapper's source); suspected defect, reported; wr1(lambda)/wr2(lambda) become wr3(lambda).
+# no_backslash_continuation_in_fstring_field: a backslash-newline between the braces of a replacement
+#   field of a triple-quoted f-string (PEP 701) inside an indented definition shifts dedent_block's
+#   line-by-line matching by one line (tokenize.untokenize drops the continuation) -> IndentationError;
+#   suspected defect, reported; the field is generated with a plain newline instead.
+EXCL = ()   # FC15h-j (the three shapes once excluded here) are repaired in /repo; the flags stay available for scratch runs
+
+# decorations applied to lambda objects that share their line with a lambda of another signature:
+#   update_wrapper  functools.update_wrapper(lam, <callable with the sibling's signature>)
+#   attr            lam.__wrapped__ = <that callable> (nothing else copied)
+#   chain           lam.__wrapped__ = w1, w1.__wrapped__ = <that callable> (two links)
+#   signature       lam.__signature__ = inspect.signature(<that callable>)
+LWRAP_MODES = ('update_wrapper', 'update_wrapper', 'attr', 'attr', 'chain', 'signature')
 
 
 
@@ -101,6 +133,33 @@ STR_PREFIX = ('', '', '', 'r', 'b', 'rb', 'f', 'f', 'rf', 'u', 'R', 'B', 'F', 'R
 
 LAM_SIGS = ('', 'x', 'x', 'y', 'x, y', 'x=1', '*a', '**k', 'x, *, k', 'x, *a, k=2, **kw', 'self', 'x, y=2')
 LAM_SIGS_POSONLY = ('x, /', 'x, /, y', 'x, y, /', 'x, /, *, k')
+
+PY312 = sys.version_info >= (3, 12)  # PEP 701: nested quotes, backslashes, comments and newlines inside replacement fields
+
+# Replacement fields of f-strings.  "\x01x" / "\x01w" / "\x01d" stand for an operand (a free name where the code is
+# never run, a constant where it is run by the import), "\x01T" for a fresh lambda tag, "\x01i" for
+# drawn leading blanks of a continuation line inside the field.  Written with double quotes; the
+# quote character of nested literals is drawn (PEP 701 allows re-using the enclosing quote).
+FIELDS_FLAT = ('{\x01x}', '{{lit}}', '{\x01x!r}', '{\x01x:>{\x01w}}', '{\x01d["k"]}', '{\x01x + 1}', '{ \x01x }', '{\x01x=}', '{\x01x}{\x01w}',
+               '{\x01x!r:^{\x01w}.{\x01w}}', '{\x01x=!s:>{\x01w}}', '{ {"k": \x01x}["k"] }', '{\x01x:.1%}', '{\x01x,}', '{\x01x:{\x01w}{"d"}}')
+# fields holding a nested string literal that is not an f-string (one STRING token inside the field)
+FIELDS_NESTED_STR = ('{"lit" + "s"}', '{r"\\d" + "s"}', '{len("a b")}', '{"a}b"}', '{b"by"!r}', '{"#"}')
+# fields holding a nested f-string (its own FSTRING_START .. FSTRING_END inside the enclosing one)
+FIELDS_NESTED_F = ('{f"{\x01x} items"}', '{f"{\x01x!r:>{\x01w}}"}', '{rf"\\d{\x01x}"}', '{\x01x:{f"{\x01w}"}}', '{f"{f"{\x01x}"}"}',
+                   '{"lit" + f"{\x01x}"}', '{\x01x if \x01w else f"n{\x01x}"}', '{f"{\x01x}" f"{\x01w}"}', '{f"{{{\x01x}}}"}', '{f""}',
+                   '{f"{\x01x}":>{\x01w}}', '{F"{f"{\x01x:{f"{\x01w}"}}"}"}')
+# fields holding a (tagged) lambda
+FIELDS_LAMBDA = ('{(lambda q: q + \x01T)(2)}', '{(lambda q, r=3: (q, \x01T))(2)!r:>{\x01w}}', '{f"{(lambda q: q + \x01T)(2)}"}',
+                 '{(lambda: \x01T)()}{(lambda: \x01T)()}', '{(lambda q: q + \x01T)((lambda r: r + \x01T)(1))}')
+# fields spanning lines (triple-quoted f-strings only)
+FIELDS_ML = ('{\x01x +\n\x01i1}', '{\n\x01i\x01x\n\x01i}', '{\x01x  # why\n\x01i}', '{\x01x + \\\n\x01i1}', '{\x01x:\n>{\x01w}}', '{\n\x01x=\n}',
+             '{"a\\\nb"}', '{(lambda q: (q,\n\x01i\x01T))(2)}', '{(\x01x,  # it"s {\n\x01i\x01w)}')
+# multi-line fields holding a nested f-string
+FIELDS_ML_NESTED_F = ('{f"""a\n\x01i{\x01x}\n"""}', '{f"{\x01x}\\\n"}', '{f"""{\x01x}\\\\\n"""}', '{rf"""C:\\\n{\x01x}"""}',
+                      '{str(\x01x) +\n\x01if"{\x01w}"}', '{f"{\x01x +\n\x01i1}"}', '{f"""{f"""{\x01x}\n"""}\n"""}', '{f"{\x01x}"  # nested\n\x01i}')
+
+# named callables a lambda may wrap, with their signature written as a lambda signature
+WRAP_NAMED = (('xy', 'x, y'), ('xy', 'x, y'), ('keep', '*a, **k'), ('ident', 'f'), ('xk', 'x, *, k'), ('xpos', 'x, /, y'))
 
 FREE_SIMPLE = (
     (['x = a +', S, 'b *', S, 'c'], 4),
@@ -170,6 +229,8 @@ class G(object):
     self.meta = collections.Counter()
     self.tabs = self.pct(22)
     self.group = None  # lambda accounting of the statement being built
+    self.fs = collections.Counter()  # f-string accounting of the literal being built
+    self.last_isfield = False
     self.cur_async = False
 
   # -- draws
@@ -240,7 +301,63 @@ class G(object):
       p = 35
 
   # -- strings
-  def piece(self, q, raw, fstr, bytes_, safe):
+  def field(self, safe, triple):
+    """One replacement field of an f-string (PEP 701 shapes: nested literals and f-strings re-using
+    the enclosing quote, lambdas, and - in triple-quoted literals - fields spanning lines with
+    comments and backslash continuations)."""
+    fs = self.fs
+    k = self.i(0, 99)
+    if not PY312 or k < 30:
+      t, kind = self.pick(FIELDS_FLAT), 'flat'
+    elif k < 40:
+      t, kind = self.pick(FIELDS_NESTED_STR), 'nested_str'
+    elif k < 66:
+      t, kind = self.pick(FIELDS_NESTED_F), 'nested_f'
+    elif k < 76:
+      t, kind = self.pick(FIELDS_LAMBDA), 'lambda'
+    elif not triple:
+      t, kind = self.pick(FIELDS_NESTED_F), 'nested_f'
+    elif k < 88:
+      t, kind = self.pick(FIELDS_ML), 'multiline'
+      if ' \\\n' in t:
+        if self.excluded('no_backslash_continuation_in_fstring_field'):
+          t = t.replace(' \\\n', '\n')
+        else:
+          self.meta['gen:fstr:backslash_continuation_in_field'] += 1
+    else:
+      t, kind = self.pick(FIELDS_ML_NESTED_F), 'multiline_nested_f'
+    if PY312 and t != '{{lit}}' and self.pct(50):
+      t = t.translate({34: 39, 39: 34})  # the quote of nested literals: " <-> '
+    if '\x01' in t:
+      out = []
+      for j, seg in enumerate(t.split('\x01')):
+        if j:
+          c, seg = seg[0], seg[1:]
+          if c == 'x':
+            out.append(self.pick(('5', '2', '(7)')) if safe else self.pick(('x', 'a', 'self.v', 'x[0]')))
+          elif c == 'w':
+            out.append(self.pick(('4', '3')) if safe else self.pick(('w', 'n')))
+          elif c == 'd':
+            out.append('dict(k=1)' if safe else 'd')
+          elif c == 'T':
+            out.append(self.newtag())
+            self.meta['gen:lambda'] += 1
+            self.meta['gen:lambda_in_fstring_field'] += 1
+          elif c == 'i':
+            out.append(self.pick(('', ' ', '  ', '    ', '      ', '\t')))
+        out.append(seg)
+      t = ''.join(out)
+    fs[kind] += 1
+    if 'nested_f' in kind or t.lower().count('f"') + t.lower().count("f'") > 0:
+      fs['has_nested_f'] += 1
+    return t
+
+  def piece(self, q, raw, fstr, bytes_, safe, triple=False):
+    if fstr and self.pct(28):
+      return self.field(safe, triple), True
+    return self.plain_piece(q, raw, fstr, bytes_, safe), False
+
+  def plain_piece(self, q, raw, fstr, bytes_, safe):
     k = self.i(0, 99)
     if k < 50:
       t = self.pick(ASCII_PIECES)
@@ -250,11 +367,15 @@ class G(object):
       t = self.pick(DQ_ONLY if q == '"' else SQ_ONLY)
     elif k < 80:
       t = self.pick(RAW_ESC if raw else ESCAPES)
-    elif k < 92 and fstr:
+    elif k < 86 and fstr:
       if safe:
         t = self.pick(('{1 + 1}', '{{lit}}', '{2!r}', '{3:>{4}}', '{"k"}', '{ 5 }', '{6=}'))
       else:
         t = self.pick(('{x}', '{{lit}}', '{x!r}', '{x:>{w}}', '{d["k"]}', '{x + 1}', '{ x }', '{x=}', '{a}{b}'))
+    elif k < 90 and not bytes_ and not (raw and fstr and safe):
+      # a named escape: "{" that does not open a field (in a raw f-string it does: \N{BULLET} reads the name BULLET)
+      t = self.pick(('\\N{BULLET}', '\\N{EM DASH}')) if not (raw and fstr) else '\\N{BULLET}'
+      self.meta['gen:str:named_escape'] += 1
     else:
       t = 'z'
     return t
@@ -265,13 +386,20 @@ class G(object):
     raw, bytes_, fstr = 'r' in low, 'b' in low, 'f' in low
     q = self.pick('"\'')
     triple = (not single_line) and self.pct(55)
-    mk = lambda: self.piece(q, raw, fstr, bytes_, safe)
+    q2 = "'" if q == '"' else '"'
+    self.fs = collections.Counter()
+
+    def mk():
+      t, isfield = self.piece(q, raw, fstr, bytes_, safe, triple)
+      self.last_isfield = isfield
+      if not triple and not (isfield and PY312):
+        t = t.replace(q, q2)  # literal text may not hold the closing quote; a field may (PEP 701)
+      return t
+
     self.meta['gen:str:' + ('triple' if triple else 'single') + (':' + low if low else '')] += 1
     if not triple:
       parts = [mk() for _ in range(self.i(0, 2))]
-      text = ' '.join(p for p in parts if '\t' not in p or True)
-      q2 = "'" if q == '"' else '"'
-      text = text.replace(q, q2)
+      text = ' '.join(parts)
       out = prefix + q + text
       # backslash-newline inside a one-quote literal
       n = 0 if single_line else (self.i(1, 2) if self.pct(15) else 0)
@@ -282,8 +410,9 @@ class G(object):
         if run % 2:
           out += ' '
         out = self._newline(out + '\\', raw)
-        out += mk().replace(q, "'" if q == '"' else '"')
+        out += mk()
       out = self._fix_tail(out, q, raw)
+      self._fstr_account(out, fstr, raw, False)
       return out + q
     qqq = q * 3
     n = self.i(1, 4)
@@ -292,7 +421,7 @@ class G(object):
       out += '\n'
     for k in range(n):
       seg = mk()
-      if qqq in seg:
+      if qqq in seg and not (self.last_isfield and PY312):
         seg = 'q'
       out += seg
       last = (k == n - 1)
@@ -317,7 +446,29 @@ class G(object):
     out = self._fix_tail(out, q, raw)
     if out.endswith(q):
       out += ' '
+    self._fstr_account(out, fstr, raw, True)
     return out + qqq
+
+  def _fstr_account(self, out, fstr, raw, triple):
+    """Counters of the f-string shapes just generated (coverage.classes gen:fstr:*)."""
+    if not fstr:
+      return
+    fs = self.fs
+    for k, v in fs.items():
+      self.meta['gen:fstr:field:' + k] += v
+    if not fs.get('has_nested_f'):
+      return
+    self.meta['gen:fstr:with_nested_fstring'] += 1
+    if '\n' not in out:
+      return
+    self.meta['gen:fstr:multiline_with_nested_fstring'] += 1
+    for line in out.split('\n')[:-1]:
+      run = len(line) - len(line.rstrip('\\'))
+      if run and (raw or run % 2 == 0):
+        # approximate (a line ending inside a field is counted too); the exact figure is the
+        # oracle-side class def:fstring_nested+content_backslash_eol
+        self.meta['gen:fstr:multiline_with_nested_fstring+line_ending_in_backslash_content'] += 1
+        break
 
   def _newline(self, out, raw):
     """Appends the newline ending a line of a multi-line literal; the three shapes of the textual
@@ -351,12 +502,15 @@ class G(object):
     self.tag += 1
     return str(self.tag)
 
-  def lam(self, ind, inbr, safe, depth=0):
-    """Text of a lambda owning a unique tag; newlines only inside brackets."""
+  def lam(self, ind, inbr, safe, depth=0, sig=None):
+    """Text of a lambda owning a unique tag; newlines only inside brackets. `sig` forces the signature."""
     grp = self.group
     grp['n'] += 1
     self.meta['gen:lambda'] += 1
-    if self.pct(12):
+    forced = sig is not None
+    if sig is not None:
+      pass
+    elif self.pct(12):
       sharing = (not grp.get('solo')) or depth > 0 or grp['n'] > 1
       if sharing and self.excluded('no_posonly_lambda_sharing_line'):
         sig = self.pick(LAM_SIGS)
@@ -367,7 +521,9 @@ class G(object):
     else:
       sig = self.pick(LAM_SIGS)
     nested_ok = depth < 2 and not grp.get('posonly')
-    if nested_ok and self.pct(8) and sig in ('x', 'y', ''):
+    if forced:
+      pass
+    elif nested_ok and self.pct(8) and sig in ('x', 'y', ''):
       sig = (sig + ', ' if sig else '') + 'z=' + self.lam(ind, inbr, safe, depth + 1)
     ci = self.cont(ind)
     brk = (lambda: ('\n' + ci) if self.pct(30) else ' ')
@@ -414,7 +570,7 @@ class G(object):
     """Renders a template; returns text (may contain newlines) without the leading indentation."""
     ci = self.cont(ind)
     out = ''
-    nlam = sum(1 for p in parts if p in (LAM, LAMB))
+    nlam = sum(1 for p in parts if not isinstance(p, str) and (p in (LAM, LAMB) or p[0] == 'LAMS'))
     self.group = {'n': 0, 'solo': nlam == 1}
     for p in parts:
       if isinstance(p, str):
@@ -451,6 +607,8 @@ class G(object):
         out += self._sp(out, 'l') + self.lam(ind, False, safe)
       elif p is LAMB:
         out += self._sp(out, 'l') + self.lam(ind, True, safe)
+      elif p[0] == 'LAMS':
+        out += self._sp(out, 'l') + self.lam(ind, True, safe, sig=p[1])
       elif p == ('TAG',):
         out += self.newtag()
     return out
@@ -486,6 +644,8 @@ class G(object):
   def lamstmt(self, ind, safe):
     self.nl += 1
     n = 'L%d' % self.nl
+    if self.pct(16):
+      return self.wrapstmt(ind, safe, n)
     k = self.i(0, 99)
     if k < 25:
       parts = [n + ' = ', LAM]
@@ -501,6 +661,38 @@ class G(object):
       parts = [n + ' = ', LAM, ';', n + 'b = ', LAM]
     else:
       parts = [n + ' = (', B, LAMB, B, ')']
+    self.emit_stmt(ind, self.render(parts, ind, safe))
+
+  def wrapstmt(self, ind, safe, n):
+    """Lambdas that carry __wrapped__ (functools.wraps / update_wrapper written in the source) next to
+    other lambdas on the same line(s); the wrapped callable is a lambda of the statement or a named
+    function, and a sibling may be forced to have exactly the wrapped callable's signature."""
+    self.meta['gen:lambda_wrap_statement'] += 1
+    named, nsig = self.pick(WRAP_NAMED)
+    sib = ('LAMS', nsig) if self.pct(60) else LAMB
+    upd = self.pick(('functools.update_wrapper(', 'functools.update_wrapper(', 'upd('))
+    k = self.i(0, 99)
+    if k < 22:
+      # wrapper first, wrapped second
+      parts = [n + ' = ' + upd, B, LAMB, ',', B, LAMB, B, ')']
+    elif k < 40:
+      parts = [n + ' = functools.wraps(', LAMB, ')(', B, LAMB, B, ')']
+    elif k < 52:
+      # three on a line: a bystander with (maybe) the wrapped lambda's signature
+      s2 = self.pick(LAM_SIGS)
+      parts = [n + ' = [', B, ('LAMS', s2) if self.pct(50) else LAMB, ',', B, upd, LAMB, ',', B, ('LAMS', s2), ')', B, ']']
+    elif k < 68:
+      parts = [n + ' = [', B, sib, ',', B, 'functools.wraps(' + named + ')(', LAMB, ')', B, ']']
+    elif k < 82:
+      parts = [n + ' = [', B, upd, LAMB, ',', B, named + '),', B, sib, B, ']']
+    elif k < 90:
+      parts = [n + ' = {', B, '"a":', 'functools.wraps(' + named + ')(', LAMB, '),', B, '"b":', B, sib, B, '}']
+    else:
+      # a named wrapper function around a lambda: the lambda is the __wrapped__ of a def
+      w = self.pick(('wr1(', 'wr2(', 'wr3('))
+      if w != 'wr3(' and self.excluded('no_def_renamed_lambda_by_wraps'):
+        w = 'wr3('  # sets __wrapped__ but leaves the wrapper's __name__ alone
+      parts = [n + ' = keep(', B, w, LAMB, '),', B, LAMB, B, ')']
     self.emit_stmt(ind, self.render(parts, ind, safe))
 
   def _seq(self, n):
@@ -755,7 +947,16 @@ def wr2(f):
       docstring"""
         return f(*args)
     return functools.update_wrapper(wr2_inner, f)
+def wr3(f):
+  @functools.wraps(f, assigned=('__module__', '__doc__'))
+  def wr3_inner(*args, **kwargs):
+    return f(*args, **kwargs)
+  return wr3_inner
 def keep(*a, **k): return (a, k)
+def xy(x, y): return x
+def xk(x, *, k): return x
+def xpos(x, /, y): return x
+upd = functools.update_wrapper
 class CM(object):
   def __enter__(self): return self
   def __exit__(self, *a): return False'''
@@ -767,7 +968,15 @@ def modules(draw, cfg):
   src = g.module()
   mode = 'zip' if draw(st.integers(0, 99)) < 6 else 'file'
   xwrap = draw(st.integers(0, 99)) < 25
-  return {'src': src, 'mode': mode, 'xwrap': xwrap, 'meta': dict(g.meta)}
+  # attributes given to the lambda objects after their creation (what a decorator applied to the
+  # lambda at run time would do); see _decorate_lambda
+  k = draw(st.integers(0, 99))
+  lwrap = None if k < 64 else LWRAP_MODES[(k - 64) % len(LWRAP_MODES)]
+  if lwrap == 'signature' and 'no_lambda___signature___attribute' in g.excl:
+    g.meta['excluded:no_lambda___signature___attribute'] += 1
+    lwrap = 'attr'
+  lpick = draw(st.integers(0, 7))
+  return {'src': src, 'mode': mode, 'xwrap': xwrap, 'lwrap': lwrap, 'lpick': lpick, 'meta': dict(g.meta)}
 
 
 # ================================================================================================
@@ -911,8 +1120,22 @@ class Ref(object):
     except (tokenize.TokenError, SyntaxError, IndentationError):
       toks = []
     fstart = None
+    fstack = []   # open f-strings: [start row, raw, contains a nested f-string]
+    fouter = []   # closed outermost f-strings: (start row, end row, raw, nested)
     for t in toks:
       (r0, c0), (r1, c1) = t.start, t.end
+      if t.type == getattr(tokenize, 'FSTRING_START', -1):
+        if fstack:
+          for f in fstack:
+            f[2] = True
+        fstack.append([r0, 'r' in t.string.rstrip('"\'').lower(), False])
+        if len(fstack) > 1:
+          continue  # the rows of a nested f-string belong to the outermost one
+      elif t.type == getattr(tokenize, 'FSTRING_END', -1) and fstack:
+        f = fstack.pop()
+        if fstack:
+          continue
+        fouter.append((f[0], r1, f[1], f[2]))
       if t.type == tokenize.COMMENT:
         info[r0].add('comment')
         covered[r0].append((c0, c1))
@@ -934,6 +1157,18 @@ class Ref(object):
         c = len(line) - 1
         if not any(a <= c < b for a, b in covered.get(r, ())):
           info[r].add('cont')
+    # f-strings that contain another f-string; rows of such a literal that end in a backslash which
+    # is content of the literal (raw literal, or the second half of an escaped backslash)
+    for lo, hi, raw, nested in fouter:
+      if not nested:
+        continue
+      for r in range(lo, hi + 1):
+        info[r].add('fnested')
+      for r in range(lo, hi):
+        line = self.lines[r - 1]
+        run = len(line) - len(line.rstrip('\\'))
+        if run and 'cont' not in info[r] and (raw or run % 2 == 0):
+          info[r].add('fnested_bs')
     self._tok = info
     return info
 
@@ -950,6 +1185,12 @@ class Ref(object):
       feats.add('multiline_string')
     if 'comment' in kinds:
       feats.add('comment')
+    if 'fnested' in kinds:
+      feats.add('fstring_nested')
+      if hi > lo and any('fnested' in info.get(r, ()) and 'mlstring' in info.get(r, ()) for r in range(lo, hi + 1)):
+        feats.add('fstring_nested+multiline')
+    if 'fnested_bs' in kinds:
+      feats.add('fstring_nested+content_backslash_eol')
     if d.col_offset > 0:
       feats.add('nested')
     body0 = d.body[0]
@@ -1069,15 +1310,77 @@ def _rstrip_strings(node):
   return node
 
 
-def check_lambda(ref, fn, label, fails):
-  code = fn.__code__
+def _lambda_site(ref, code):
+  """(key, node that created the code object, lambdas spanning its first line) or None."""
   k = _code_key(code)
   cands = ref.lams.get(repr(k), []) if k is not None else []
   if len(cands) != 1 or cands[0].lineno != code.co_firstlineno:
     return None
-  want = cands[0]
   line = code.co_firstlineno
-  sharing = [n for n in ref.all_lams if n.lineno <= line <= n.end_lineno]
+  return k, cands[0], [n for n in ref.all_lams if n.lineno <= line <= n.end_lineno]
+
+
+def _code_argnames(code):
+  """Parameter names of a code object in the layout of _argnames."""
+  n, kw, names = code.co_argcount, code.co_kwonlyargcount, code.co_varnames
+  i = n + kw
+  va = vk = None
+  if code.co_flags & 0x04:
+    va, i = names[i], i + 1
+  if code.co_flags & 0x08:
+    vk = names[i]
+  return (tuple(names[:n]), va, tuple(names[n:n + kw]), vk)
+
+
+def _sigkey(a):
+  return _argnames(a), len(a.posonlyargs)
+
+
+def _mid(*args, **kwargs):
+  return None
+
+
+def _decorate_lambda(case, ref, fn, codemap, glob):
+  """Gives a lambda object the attributes a decorator applied at run time would give it, pointing
+  at a callable that has the signature of ANOTHER lambda of the same line (drawn by case['lpick']).
+  Returns the decoration applied (a label) or None.  The callable is always a fresh function made
+  from the sibling's code object, so no __wrapped__ cycles arise."""
+  mode = case.get('lwrap')
+  if not mode or getattr(fn, '__wrapped__', None) is not None:
+    return None
+  site = _lambda_site(ref, fn.__code__)
+  if site is None:
+    return None
+  _, want, sharing = site
+  mine = _sigkey(want.args)
+  others = [n for n in sharing if n is not want and _sigkey(n.args) != mine and repr(_node_key(n)) in codemap]
+  if not others:
+    return None
+  others.sort(key=lambda n: (n.lineno, n.col_offset))
+  code = codemap[repr(_node_key(others[case.get('lpick', 0) % len(others)]))]
+  target = types.FunctionType(code, glob, '<lambda>', None, tuple(types.CellType(0) for _ in code.co_freevars))
+  if mode == 'update_wrapper':
+    functools.update_wrapper(fn, target)
+  elif mode == 'attr':
+    fn.__wrapped__ = target
+  elif mode == 'chain':
+    mid = types.FunctionType(_mid.__code__, glob, 'mid')
+    mid.__wrapped__ = target
+    fn.__wrapped__ = mid
+  elif mode == 'signature':
+    fn.__signature__ = inspect.signature(target)
+  else:
+    raise ValueError('unknown lwrap mode %r' % (mode,))
+  return 'harness:' + mode
+
+
+def check_lambda(ref, fn, label, fails, deco=None):
+  code = fn.__code__
+  site = _lambda_site(ref, code)
+  if site is None:
+    return None
+  k, want, sharing = site
+  line = code.co_firstlineno
   lo = min(n.lineno for n in sharing)
   hi = max(n.end_lineno for n in sharing)
   key = common.h8(['lambda', repr(k), ref.lines[lo - 1:hi]])
@@ -1102,6 +1405,23 @@ def check_lambda(ref, fn, label, fails):
   if want.col_offset and ref.lines[line - 1][:1] in (' ', '\t'):
     feats.add('indented_line')
   feats.add('nlambdas_on_line=%d' % min(len(sharing), 4))
+  w = getattr(fn, '__wrapped__', None)
+  if w is not None:
+    feats.add('object_has___wrapped__')
+    feats.add('decorated_via=' + (deco or 'source'))
+    hops = 0
+    while getattr(w, '__wrapped__', None) is not None and hops < 8:
+      w, hops = w.__wrapped__, hops + 1
+    wc = getattr(w, '__code__', None)
+    if wc is not None:
+      wn = _code_argnames(wc)
+      if wn != names and any(n is not want and _argnames(n.args) == wn for n in sharing):
+        # the shape in which following __wrapped__ would select another lambda of the line
+        feats.add('wrapped_signature_on_line')
+        feats.add('wrapped_signature_on_line:via=' + ('harness' if deco else 'source'))
+  elif getattr(fn, '__signature__', None) is not None:
+    feats.add('object_has___signature__')
+    feats.add('decorated_via=' + (deco or 'source'))
   tgt = {'target': label, 'tag': repr(k), 'line': line}
   try:
     got, source = parser.parse_entity(fn, future_features=())
@@ -1190,7 +1510,7 @@ def _real_functions(mod, path):
   return out
 
 
-_PRELUDE_SKIP = frozenset(('ident', 'dargs', 'd', 'wr1', 'wr2', '__enter__', '__exit__'))
+_PRELUDE_SKIP = frozenset(('ident', 'dargs', 'd', 'wr1', 'wr2', 'wr3', '__enter__', '__exit__', 'xy', 'xk', 'xpos'))
 
 
 def _unload(mods, path):
@@ -1271,7 +1591,7 @@ def _run_loaded(case, ref, mod, other, path, fails, stats, info):
     return
   for code in _codes(top, []):
     if code.co_name != '<lambda>' and (code.co_name not in ref.defs or code.co_name in _PRELUDE_SKIP or
-                                       code.co_name in ('wr1_inner', 'wr2_inner')):
+                                       code.co_name in ('wr1_inner', 'wr2_inner', 'wr3_inner')):
       continue  # class bodies, type-parameter scopes, fixed helper definitions
     ck = (code.co_name, code.co_firstlineno, repr(_code_key(code)) if code.co_name == '<lambda>' else '')
     if ck in real_codes:
@@ -1280,12 +1600,28 @@ def _run_loaded(case, ref, mod, other, path, fails, stats, info):
     cells = tuple(types.CellType(0) for _ in code.co_freevars)
     fn = types.FunctionType(code, vars(mod), code.co_name, None, cells)
     objs.append((fn, '<code>'))
+  codemap = {}
+  if case.get('lwrap'):
+    dup = set()
+    for code in _codes(top, []):
+      if code.co_name == '<lambda>':
+        ck = repr(_code_key(code))
+        if ck in codemap:
+          dup.add(ck)
+        codemap[ck] = code
+    for ck in dup:
+      del codemap[ck]
+    codemap.pop('None', None)
   for fn, label in objs:
     if zipmode:
       linecache.cache.pop(path, None)  # every object is looked up as if it were the first
     fl = []
     islam = fn.__code__.co_name == '<lambda>'
-    r = (check_lambda if islam else check_def)(ref, fn, label, fl)
+    if islam:
+      deco = _decorate_lambda(case, ref, fn, codemap, vars(mod)) if codemap else None
+      r = check_lambda(ref, fn, label, fl, deco)
+    else:
+      r = check_def(ref, fn, label, fl, zipmode)
     if r is None:
       stats.append({'kind': 'lambda' if islam else 'def', 'ident_failed': True, 'label': label})
       continue
@@ -1312,10 +1648,12 @@ def shard(ctx, acc):
   n = ctx.share('modules')
 
   def body(m):
-    case = {'src': m['src'], 'mode': m['mode'], 'xwrap': m['xwrap']}
+    case = {'src': m['src'], 'mode': m['mode'], 'xwrap': m['xwrap'], 'lwrap': m['lwrap'], 'lpick': m['lpick']}
     fails, stats, info = run_case(case)
     acc.count('modules')
     acc.count('module_mode=' + m['mode'])
+    if m['lwrap']:
+      acc.count('module_lambda_decoration=' + m['lwrap'])
     for k, v in m['meta'].items():
       acc.count(k, v)
     if info['slip']:
@@ -1387,6 +1725,10 @@ def shrink(case, bucket, deadline):
   out = dict(case, src='\n'.join(lines))
   if case.get('xwrap') and time.time() < deadline:
     c2 = dict(out, xwrap=False)
+    if any(f['bucket'] == bucket for f in replay(c2)):
+      out = c2
+  if out.get('lwrap') and time.time() < deadline:
+    c2 = dict(out, lwrap=None)
     if any(f['bucket'] == bucket for f in replay(c2)):
       out = c2
   if out.get('mode') == 'zip' and time.time() < deadline:
